@@ -1,4 +1,5 @@
 import HcipyVerif.Lemmas.Fraunhofer
+import HcipyVerif.Lemmas.FourierLink
 
 /-!
 # C03 — lens (Fraunhofer) propagation equals the scaled Fourier integral
@@ -347,5 +348,181 @@ example : ∃ (T : FourierTransform Unit Unit) (pupil uv : Grid Unit 2),
   · intro E G
     simp [wip]
     ring
+
+/-! ## the Fourier hypotheses discharged: the FFT model of C01/C02 (`Lemmas/FourierLink.lean`)
+
+`fftPropagator` is a Fraunhofer propagator between the regular pupil grid of two axis configurations
+`gy gx : Cfg ℝ ℂ` (sizes `N`, padded sizes `M`, output sizes `Mo`, spacings, offsets, shifts — the data of a
+`FastFourierTransform`, `AxisOK` = `N ≤ M`, `Mo ≤ M`, `Δ·M·δ = 2π`, weight `δ`) and the focal grid that is
+FFT-native at the wavelength `lam0`; its transform is the *model of the code*: the literal 2-D pipelines
+`fastForward2` / `fastBackward2` (zero padding, (emulated) fftshifts, `fftn`, cropping, multipliers).
+The theorems below carry no hypothesis about the Fourier transform any more. -/
+
+section fft
+open HcipyVerif.Fft HcipyVerif.FourierLink
+
+/-- `fraunhofer_eq_integral` needs the C01 hypothesis only at the wavelength of the wavefront. -/
+theorem fraunhofer_eq_integral_at (P : Propagator ι κ d) (wf : Wavefront ι τ)
+    (hT : EvaluatesFourierSum (P.ft wf.wavelength) P.pupil (P.uvGrid wf.wavelength)) (t : τ) (k : κ) :
+    (P.forward wf).field t k
+      = 1 / (I * (wf.wavelength : ℂ) * (P.focalLength wf.wavelength : ℂ))
+        * ∑ j, wf.field t j * (P.pupil.weights j : ℂ)
+            * cexp (-(2 * (Real.pi : ℂ) * I * ((dot (P.focal.pts k) (P.pupil.pts j) : ℝ) : ℂ))
+                / ((wf.wavelength : ℂ) * (P.focalLength wf.wavelength : ℂ))) := by
+  unfold Propagator.forward
+  simp only [Pi.smul_apply, smul_eq_mul]
+  rw [hT (wf.field t) k]
+  unfold fourierSum normFactorC
+  congr 1
+  · rw [mul_right_comm]
+  · apply Finset.sum_congr rfl
+    intro j _
+    rw [uv_dot]
+    congr 2
+    push_cast
+    ring
+
+/-- The propagator built on the FFT model: pupil grid of `(gy, gx)`, focal grid FFT-native at `lam0`. -/
+noncomputable def fftPropagator (gy gx : Cfg ℝ ℂ) (oky : AxisOK gy) (okx : AxisOK gx) (hemu : gy.emu = gx.emu)
+    (f lam0 : ℝ) : Propagator (Fin gy.N × Fin gx.N) (Fin gy.Mo × Fin gx.Mo) 2 :=
+  { pupil := pupilGrid2 gy gx
+    focal := (uvGrid2 gy gx).scaled (uvScaleR lam0 f)⁻¹
+    focalLength := fun _ => f
+    ft := fun _ => fftTransform2 gy gx oky okx hemu }
+
+/-- at `lam0` the uv grid of the propagator is the FFT's own output grid -/
+theorem fftPropagator_uvGrid (gy gx : Cfg ℝ ℂ) (oky : AxisOK gy) (okx : AxisOK gx) (hemu : gy.emu = gx.emu)
+    (f lam0 : ℝ) (hpos : 0 < lam0 * f) :
+    (fftPropagator gy gx oky okx hemu f lam0).uvGrid lam0 = uvGrid2 gy gx := by
+  have hs : 0 < uvScaleR lam0 f := uvScaleR_pos hpos
+  unfold Propagator.uvGrid fftPropagator Grid.scaled
+  simp only
+  congr 1
+  · funext k i
+    rw [← mul_assoc, mul_inv_cancel₀ hs.ne', one_mul]
+    rfl
+  · funext k
+    rw [← mul_assoc, ← mul_pow, abs_inv, mul_inv_cancel₀ (abs_pos.mpr hs.ne').ne', one_pow, one_mul]
+    rfl
+
+/-- **`fraunhofer_eq_integral` for the FFT model**: on every consistent FFT grid (any padding `q`, cropping
+`fov`, shift, either `emulate_fftshifts` setting) the propagated field is the scaled Fourier integral. -/
+theorem fraunhofer_eq_integral_fft (gy gx : Cfg ℝ ℂ) (oky : AxisOK gy) (okx : AxisOK gx) (hemu : gy.emu = gx.emu)
+    (f lam0 : ℝ) (hpos : 0 < lam0 * f) (wf : Wavefront (Fin gy.N × Fin gx.N) τ) (hwl : wf.wavelength = lam0)
+    (t : τ) (k : Fin gy.Mo × Fin gx.Mo) :
+    ((fftPropagator gy gx oky okx hemu f lam0).forward wf).field t k
+      = 1 / (I * (lam0 : ℂ) * (f : ℂ))
+        * ∑ j, wf.field t j * ((gy.δ * gx.δ : ℝ) : ℂ)
+            * cexp (-(2 * (Real.pi : ℂ) * I
+                * ((dot ((fftPropagator gy gx oky okx hemu f lam0).focal.pts k) ((pupilGrid2 gy gx).pts j) : ℝ) : ℂ))
+                / ((lam0 : ℂ) * (f : ℂ))) := by
+  have hT : EvaluatesFourierSum ((fftPropagator gy gx oky okx hemu f lam0).ft wf.wavelength)
+      (fftPropagator gy gx oky okx hemu f lam0).pupil
+      ((fftPropagator gy gx oky okx hemu f lam0).uvGrid wf.wavelength) := by
+    rw [hwl, fftPropagator_uvGrid gy gx oky okx hemu f lam0 hpos]
+    exact fft2_evaluates gy gx oky okx hemu
+  have h := fraunhofer_eq_integral_at (fftPropagator gy gx oky okx hemu f lam0) wf hT t k
+  rw [hwl] at h
+  exact h
+
+/-- **`fraunhofer_power` for the FFT model** on the full conjugate pair (`fov = 1` on both axes). -/
+theorem fraunhofer_power_fft (gy gx : Cfg ℝ ℂ) (oky : AxisOK gy) (okx : AxisOK gx) (hemu : gy.emu = gx.emu)
+    (hfy : gy.Mo = gy.M) (hfx : gx.Mo = gx.M)
+    (f lam0 : ℝ) (hpos : 0 < lam0 * f) (wf : Wavefront (Fin gy.N × Fin gx.N) τ) (hwl : wf.wavelength = lam0) :
+    ∑ t, power (fftPropagator gy gx oky okx hemu f lam0).focal.weights
+        (((fftPropagator gy gx oky okx hemu f lam0).forward wf).field t)
+      = ∑ t, power (pupilGrid2 gy gx).weights (wf.field t) := by
+  apply fraunhofer_power (fftPropagator gy gx oky okx hemu f lam0) wf
+  · rw [hwl]; exact hpos
+  · rw [hwl, fftPropagator_uvGrid gy gx oky okx hemu f lam0 hpos]
+    exact fft2_parseval gy gx oky okx hemu hfy hfx
+
+/-- … and for Jones-matrix wavefronts with a Stokes vector. -/
+theorem fraunhofer_stokes_power_fft (gy gx : Cfg ℝ ℂ) (oky : AxisOK gy) (okx : AxisOK gx) (hemu : gy.emu = gx.emu)
+    (hfy : gy.Mo = gy.M) (hfx : gx.Mo = gx.M) (f lam0 : ℝ) (hpos : 0 < lam0 * f)
+    (wf : Wavefront (Fin gy.N × Fin gx.N) (Fin 2 × Fin 2)) (S : Fin 4 → ℝ) (hwl : wf.wavelength = lam0) :
+    stokesPower (fftPropagator gy gx oky okx hemu f lam0).focal.weights S
+        ((fftPropagator gy gx oky okx hemu f lam0).forward wf).field
+      = stokesPower (pupilGrid2 gy gx).weights S wf.field := by
+  apply fraunhofer_stokes_power (fftPropagator gy gx oky okx hemu f lam0) wf S
+  · rw [hwl]; exact hpos
+  · rw [hwl, fftPropagator_uvGrid gy gx oky okx hemu f lam0 hpos]
+    exact fft2_parseval gy gx oky okx hemu hfy hfx
+
+/-- **`fraunhofer_inverse` for the FFT model** on the full conjugate pair. -/
+theorem fraunhofer_inverse_fft (gy gx : Cfg ℝ ℂ) (oky : AxisOK gy) (okx : AxisOK gx) (hemu : gy.emu = gx.emu)
+    (hfy : gy.Mo = gy.M) (hfx : gx.Mo = gx.M)
+    (f lam0 : ℝ) (hpos : 0 < lam0 * f) (wf : Wavefront (Fin gy.N × Fin gx.N) τ) (hwl : wf.wavelength = lam0) :
+    (fftPropagator gy gx oky okx hemu f lam0).backward ((fftPropagator gy gx oky okx hemu f lam0).forward wf) = wf := by
+  apply fraunhofer_inverse (fftPropagator gy gx oky okx hemu f lam0) wf
+  · rw [hwl]; exact hpos.ne'
+  · exact fft2_inverse gy gx oky okx hemu hfy hfx
+
+/-- The transform *defined* as the weighted Fourier sum (`NaiveFourierTransform`; C01 shows that
+`MatrixFourierTransform` and `ZoomFastFourierTransform` compute the same numbers). -/
+noncomputable def naiveTransform (pupil : Grid ι d) (uv : Grid κ d) : FourierTransform ι κ :=
+  { fwd := { toFun := fun E k => fourierSum pupil (uv.pts k) E
+             map_add' := by
+               intro x y; funext k
+               simp only [fourierSum, Pi.add_apply, ← Finset.sum_add_distrib]
+               apply Finset.sum_congr rfl; intro j _; ring
+             map_smul' := by
+               intro a x; funext k
+               simp only [fourierSum, Pi.smul_apply, smul_eq_mul, RingHom.id_apply, Finset.mul_sum]
+               apply Finset.sum_congr rfl; intro j _; ring }
+    bwd := 0 }
+
+/-- What `make_fourier_transform` does for a lens: the FFT (model) at the wavelength for which the focal grid
+is FFT-native, the defining sum at every other wavelength. -/
+noncomputable def autoPropagator (gy gx : Cfg ℝ ℂ) (oky : AxisOK gy) (okx : AxisOK gx) (hemu : gy.emu = gx.emu)
+    (f lam0 : ℝ) : Propagator (Fin gy.N × Fin gx.N) (Fin gy.Mo × Fin gx.Mo) 2 := by
+  classical
+  exact
+  { pupil := pupilGrid2 gy gx
+    focal := (uvGrid2 gy gx).scaled (uvScaleR lam0 f)⁻¹
+    focalLength := fun _ => f
+    ft := fun lam => if lam = lam0 then fftTransform2 gy gx oky okx hemu
+      else naiveTransform (pupilGrid2 gy gx) (((uvGrid2 gy gx).scaled (uvScaleR lam0 f)⁻¹).scaled (uvScaleR lam f)) }
+
+/-- **`Propagator.TransformsCorrect` discharged**: every wavelength, FFT branch by C01. -/
+theorem autoPropagator_transformsCorrect (gy gx : Cfg ℝ ℂ) (oky : AxisOK gy) (okx : AxisOK gx)
+    (hemu : gy.emu = gx.emu) (f lam0 : ℝ) (hpos : 0 < lam0 * f) :
+    (autoPropagator gy gx oky okx hemu f lam0).TransformsCorrect := by
+  intro lam
+  by_cases h : lam = lam0
+  · subst h
+    have hu : (autoPropagator gy gx oky okx hemu f lam).uvGrid lam = uvGrid2 gy gx :=
+      fftPropagator_uvGrid gy gx oky okx hemu f lam hpos
+    rw [hu]
+    have hft : (autoPropagator gy gx oky okx hemu f lam).ft lam = fftTransform2 gy gx oky okx hemu := by
+      unfold autoPropagator; simp
+    rw [hft]
+    exact fft2_evaluates gy gx oky okx hemu
+  · have hft : (autoPropagator gy gx oky okx hemu f lam0).ft lam
+        = naiveTransform (pupilGrid2 gy gx) (((uvGrid2 gy gx).scaled (uvScaleR lam0 f)⁻¹).scaled (uvScaleR lam f)) := by
+      unfold autoPropagator; simp [h]
+    rw [hft]
+    intro E k
+    rfl
+
+/-- **`fraunhofer_eq_integral` with no hypothesis left**, every wavelength, every wavefront. -/
+theorem fraunhofer_eq_integral_auto (gy gx : Cfg ℝ ℂ) (oky : AxisOK gy) (okx : AxisOK gx) (hemu : gy.emu = gx.emu)
+    (f lam0 : ℝ) (hpos : 0 < lam0 * f) (wf : Wavefront (Fin gy.N × Fin gx.N) τ) (t : τ)
+    (k : Fin gy.Mo × Fin gx.Mo) :
+    ((autoPropagator gy gx oky okx hemu f lam0).forward wf).field t k
+      = 1 / (I * (wf.wavelength : ℂ) * (f : ℂ))
+        * ∑ j, wf.field t j * ((gy.δ * gx.δ : ℝ) : ℂ)
+            * cexp (-(2 * (Real.pi : ℂ) * I
+                * ((dot ((autoPropagator gy gx oky okx hemu f lam0).focal.pts k) ((pupilGrid2 gy gx).pts j) : ℝ) : ℂ))
+                / ((wf.wavelength : ℂ) * (f : ℂ))) :=
+  fraunhofer_eq_integral (autoPropagator gy gx oky okx hemu f lam0)
+    (autoPropagator_transformsCorrect gy gx oky okx hemu f lam0 hpos) wf t k
+
+/-- Non-vacuity: a consistent full pair exists (`N = 2`, `M = Mo = 4`, `δ = 1/2`, `dT = 1/2` on both axes). -/
+example : ∃ g : Cfg ℝ ℂ, AxisOK g ∧ g.Mo = g.M :=
+  ⟨{ N := 2, M := 4, Mo := 4, δ := 1 / 2, z := 0, dT := 1 / 2, s := 0, w := ((1 / 2 : ℝ) : ℂ), emu := false },
+    ⟨by norm_num, by norm_num, by norm_num, rfl⟩, rfl⟩
+
+end fft
 
 end HcipyVerif.Fraunhofer
